@@ -108,6 +108,14 @@ def make_dumps(R, idx):
                            flattened=dict(chunk=4096, order=order))
     d["flat"] = (p, pages, dict(writer="write_diskdump", pages=pages, max_mapnr=16, ram=12, methods={pages[0]: "zlib"},
                                 flattened=dict(chunk=4096, order=order)))
+    # the same content cut into many small records: the per-file offset array of the flattened map (flatmap.c, grown in steps
+    # of 32 segments) is re-allocated several times while the file is opened
+    p = R.path("c18-%d.flatmany" % idx)
+    chunk = rng.choice([96, 160, 256, 400, 700])
+    dumpgen.write_diskdump(p, pages, max_mapnr=16, ram=range(12), methods={pages[0]: "zlib"},
+                           flattened=dict(chunk=chunk, order=order))
+    d["flatmany"] = (p, pages, dict(writer="write_diskdump", pages=pages, max_mapnr=16, ram=12, methods={pages[0]: "zlib"},
+                                    flattened=dict(chunk=chunk, order=order)))
     mach, cls, be = rng.choice([("s390x", 64, True), ("i386", 32, False), ("arm", 32, False),
                                 ("riscv64", 64, False), ("x86_64", 64, False)])   # 4 KiB pages without further attributes
     segs2 = [dict(pfn=rng.randint(1, 4), npages=rng.randint(1, 3), voff=0x80000000 if cls == 32 else VOFF)]
@@ -185,6 +193,10 @@ def scenarios(R, dumps, first):
     add("open-elf-nommap", "open {n} {t} %s 0 %s" % (e[0], pl(e[1])), "elf")
     add("open-dd", "open {n} {t} %s -1 %s" % (dd[0], pl(dd[1])), "dd")
     add("open-flat", "open {n} {t} %s -1 %s" % (fl[0], pl(fl[1])), "flat")
+    fm = dumps["flatmany"]
+    add("open-flat-many", "open {n} {t} %s -1 %s" % (fm[0], pl(fm[1])), "flatmany")
+    if R.tier != "quick":
+        add("reopen-flat-many", "open {n} {t} %s -1 %s 1 0 %s" % (fm[0], pl(fm[1]), fl[0]), "flatmany")
     add("read-elf", "read {n} {t} %s -1 1 0 0 %s" % (e[0], pl(e[1])), "elf")
     add("read-kv-elf", "read {n} {t} %s -1 2 %d 0 %s" % (e[0], VOFF, pl(e[1])), "elf", addrxlat=True)
     add("read-uelf", "read {n} {t} %s 0 1 0 0 %s" % (u[0], pl(u[1])), "uelf")
